@@ -54,7 +54,7 @@ type env struct {
 }
 
 func body(r *ev.Run) {
-	r.Rule("(1) round trips: stores built by ingestion (constructed chains of exact longest length 1..1600 incl. 499/500/501/999/1000/1001/1499/1500/1501 with stale forks, real reorganisations, orphans; and seeded random histories over all bits classes), every header with extreme field values (negative versions, max uint32 nonce, timestamps over the whole uint32 range), a share of them in a non-UTC process time zone, a quarter of them with headers that equal their parent in every exported column, a third of them with the intermediate dump of an earlier, failed export of a longer chain still lying in $TMPDIR -> ExportHeaders -> start-up with prepared_db into an empty database, newest checkpoint = a block of the chain; rows compared column by column. (2) refusals: per exported store, every corruption class {non-numeric, out-of-range, empty field, changed value} x every column, {column count, deleted row, duplicated row, swapped rows, truncated csv} at rows {1,499,500,501,last}, {truncated gzip (at byte positions, and exactly after a complete row under mid/genesis checkpoints), flipped gzip byte, not gzip, header line missing/duplicated/altered}, checkpoint hash mismatch and checkpoint height beyond the chain; a refusal is required only when the mutation makes a row malformed, or changes/removes a row at or below the newest checkpoint (so the checkpoint hash or the count contradicts the file); every third import runs with p2p.disable_checkpoints set; after every refusal the schema is compared with a freshly initialised database's (no index or table left behind, none missing) and a second start is made on the same database. (3) a start with prepared_db on a database that already holds headers. evaluations = round trips + corruption cases + non-empty cases; distinct = distinct (length, stale, orphan, checkpoint, zone) round-trip shapes and distinct (store length class, corruption id) cases; non-trivial = round trips with stale/orphan rows or more than 500 rows, and every corruption case.")
+	r.Rule("(1) round trips: stores built by ingestion (constructed chains of exact longest length 1..1600 incl. 499/500/501/999/1000/1001/1499/1500/1501 with stale forks, real reorganisations, orphans; and seeded random histories over all bits classes), every header with extreme field values (negative versions, max uint32 nonce, timestamps over the whole uint32 range), a share of them in a non-UTC process time zone, a quarter of them with headers that equal their parent in every exported column, a third of them with the intermediate dump of an earlier, failed export of a longer chain still lying in $TMPDIR -> ExportHeaders -> start-up with prepared_db into an empty database, newest checkpoint = a block of the chain; rows compared column by column. (2) refusals: per exported store, every corruption class {non-numeric, out-of-range, empty field, changed value} x every column, {column count, deleted row, duplicated row, swapped rows, truncated csv} at rows {1,499,500,501,last}, {truncated gzip (at byte positions, and exactly after a complete row under mid/genesis checkpoints), flipped gzip byte, not gzip, header line missing/duplicated/altered}, checkpoint hash mismatch and checkpoint height beyond the chain; a refusal is required only when the mutation makes a row malformed, or changes/removes a row at or below the newest checkpoint (so the checkpoint hash or the count contradicts the file); every third import runs with p2p.disable_checkpoints set; after every refusal the schema is compared with a freshly initialised database's (no index or table left behind, none missing) and a second start is made on the same database. (3) a start with prepared_db on a database that already holds headers. (4) exports whose SELECT fails at one row (a view in front of the table): the failure is reported, or the file holds the whole chain. evaluations = round trips + corruption cases + non-empty cases; distinct = distinct (length, stale, orphan, checkpoint, zone) round-trip shapes and distinct (store length class, corruption id) cases; non-trivial = round trips with stale/orphan rows or more than 500 rows, and every corruption case.")
 	r.Assume("SQLite engine only", "stdlib compress/gzip output is a valid input for the import (checked by a control import per store)", "a store whose ingestion panicked or whose LONGEST_CHAIN labelling is already broken is not used as a round-trip source (C01/C02 cover that)", "second start uses the same configuration as the refused one")
 	work := filepath.Join(r.Scratch, "c17")
 	if err := os.MkdirAll(work, 0o755); err != nil {
@@ -98,6 +98,13 @@ func body(r *ev.Run) {
 		caseID := fmt.Sprintf("rt/%d", i)
 		if r.MineIdx(caseID, slot) {
 			r.Exec(caseID, func() { e.roundTrip(caseID, i) })
+		}
+		slot++
+	}
+	for i := 0; i < r.Pick(6, 30); i++ {
+		unit := fmt.Sprintf("expfault/%d", i)
+		if r.MineIdx(unit, slot) {
+			r.Exec(unit, func() { e.exportFault(unit, i) })
 		}
 		slot++
 	}
